@@ -154,8 +154,8 @@ example : Instance.hashFeed i1 =
      .num 53, .num 443, .num 8080] := by decide
 example : i1.ips ≠ i2.ips := by decide
 example : Instance.eqv i1 i2 := by
-  refine ⟨rfl, fun x => ?_, fun x => ?_, fun k v => ?_⟩ <;> simp [i1, i2] <;> omega
-example : i1.SetsOK ∧ i2.SetsOK := by decide
+  refine ⟨rfl, fun x => ?_, fun x => ?_, fun k v => ?_⟩ <;> simp [i1, i2] <;> grind
+example : i1.SetsOK ∧ i2.SetsOK := by simp [Instance.SetsOK, i1, i2]
 
 private def r1 : RR :=
   { name := [[97], [98]], cls := .IN, ttl := 120, rdata := .flat 1 [.int 0x7F000001], flush := false }
